@@ -416,26 +416,44 @@ class _resolve_called_lambdas(ast.NodeTransformer):
 
     def __init__(self):
         self._arg_map_list = []
+        # Every name the expression uses anywhere (a new name must not be one of them)
+        self._names_in_use: Optional[set] = None
+
+    def visit(self, node: ast.AST) -> Any:
+        if self._names_in_use is None:
+            self._names_in_use = {n.id for n in ast.walk(node) if isinstance(n, ast.Name)} | {
+                n.arg for n in ast.walk(node) if isinstance(n, ast.arg)
+            }
+        return super().visit(node)
 
     @staticmethod
     def _bind_arguments(node: ast.Call) -> Optional[Dict[str, ast.expr]]:
-        """Which expression each parameter of the called lambda gets - from a positional
-        argument, a keyword or its default. `None` if the call is not that simple (starred
-        arguments, `*args`, keyword-only parameters, missing or surplus arguments...)."""
+        """Which expression each parameter of the called lambda gets, the way python binds
+        them - from a positional argument, a keyword or its default. `None` if the call can't
+        be replaced by the lambda's body (starred arguments, `*args`, missing or surplus
+        arguments...)."""
         l_args = node.func.args  # type: ignore
-        if l_args.vararg or l_args.kwarg or l_args.kwonlyargs or l_args.posonlyargs:
+        if l_args.vararg or l_args.kwarg:
             return None
-        names = [a.arg for a in l_args.args]
-        if len(node.args) > len(names) or any(isinstance(a, ast.Starred) for a in node.args):
+        positional = [a.arg for a in l_args.posonlyargs + l_args.args]
+        by_keyword = [a.arg for a in l_args.args + l_args.kwonlyargs]
+        if len(node.args) > len(positional) or any(
+            isinstance(a, ast.Starred) for a in node.args
+        ):
             return None
-        bound = dict(zip(names, node.args))
+        bound = dict(zip(positional, node.args))
         for k in node.keywords:
-            if k.arg is None or k.arg not in names or k.arg in bound:
+            if k.arg is None or k.arg not in by_keyword or k.arg in bound:
                 return None
             bound[k.arg] = k.value
-        for name, default in zip(names[len(names) - len(l_args.defaults) :], l_args.defaults):
+        for name, default in zip(
+            positional[len(positional) - len(l_args.defaults) :], l_args.defaults
+        ):
             bound.setdefault(name, default)
-        if len(bound) != len(names):
+        for a, default in zip(l_args.kwonlyargs, l_args.kw_defaults):
+            if default is not None:
+                bound.setdefault(a.arg, default)
+        if len(bound) != len(positional) + len(l_args.kwonlyargs):
             return None
         return bound
 
@@ -451,6 +469,24 @@ class _resolve_called_lambdas(ast.NodeTransformer):
                 result = self.visit(node.func.body)
                 self._arg_map_list.pop()
                 return result
+
+            # The lambda stays a call. If its parameters get new names, the keywords of the
+            # call follow.
+            old_names = [a.arg for a in node.func.args.args + node.func.args.kwonlyargs]
+            new_func = self.visit(node.func)
+            new_names = [a.arg for a in new_func.args.args + new_func.args.kwonlyargs]
+            renamed = dict(zip(old_names, new_names))
+            return ast.Call(
+                func=new_func,
+                args=[self.visit(a) for a in node.args],
+                keywords=[
+                    ast.keyword(
+                        arg=renamed.get(k.arg, k.arg) if k.arg is not None else None,
+                        value=self.visit(k.value),
+                    )
+                    for k in node.keywords
+                ],
+            )
         return self.generic_visit(node)
 
     def visit_Lambda(self, node: ast.Lambda) -> Any:
@@ -459,19 +495,33 @@ class _resolve_called_lambdas(ast.NodeTransformer):
         if len(self._arg_map_list) == 0:
             return self.generic_visit(node)
 
+        new_args = copy.copy(node.args)
+        # Default values are evaluated outside the lambda
+        new_args.defaults = [self.visit(d) for d in node.args.defaults]
+        new_args.kw_defaults = [
+            self.visit(d) if d is not None else None for d in node.args.kw_defaults
+        ]
+
+        # Every kind of parameter is the lambda's own name
         own_args = {}
-        new_arg_list = []
-        for a in node.args.args:
+
+        def own(a: Optional[ast.arg]) -> Optional[ast.arg]:
+            if a is None:
+                return None
             new_name = self._name_not_in_arguments(a.arg)
             own_args[a.arg] = ast.Name(id=new_name, ctx=ast.Load())
-            new_arg_list.append(ast.arg(arg=new_name) if new_name != a.arg else a)
+            return ast.arg(arg=new_name) if new_name != a.arg else a
+
+        new_args.posonlyargs = [own(a) for a in node.args.posonlyargs]
+        new_args.args = [own(a) for a in node.args.args]
+        new_args.kwonlyargs = [own(a) for a in node.args.kwonlyargs]
+        new_args.vararg = own(node.args.vararg)
+        new_args.kwarg = own(node.args.kwarg)
 
         self._arg_map_list.append(own_args)
         new_body = self.visit(node.body)
         self._arg_map_list.pop()
 
-        new_args = copy.copy(node.args)
-        new_args.args = new_arg_list
         return ast.Lambda(args=new_args, body=new_body)
 
     def _name_not_in_arguments(self, name: str) -> str:
@@ -484,9 +534,15 @@ class _resolve_called_lambdas(ast.NodeTransformer):
             for n in ast.walk(value)
             if isinstance(n, ast.Name)
         }
-        new_name = name
-        while new_name in names_in_arguments:
+        if name not in names_in_arguments:
+            return name
+        # A new name: one that nothing in the expression uses (it could be captured by, or
+        # capture, any of those).
+        in_use = self._names_in_use if self._names_in_use is not None else set()
+        new_name = f"{name}_{len(self._arg_map_list)}"
+        while new_name in names_in_arguments or new_name in in_use:
             new_name = f"{new_name}_{len(self._arg_map_list)}"
+        in_use.add(new_name)
         return new_name
 
     def _visit_comprehension(self, node: ast.AST) -> Any:
